@@ -10,12 +10,28 @@ fn main() {
     let repo = std::env::var("VERIF_REPO").unwrap_or_else(|_| "/repo".to_string());
     let out = format!("{}/src/gen", std::env::var("CARGO_MANIFEST_DIR").unwrap());
     fs::create_dir_all(&out).unwrap();
-    let files = [
-        ("tiny-std/src/sync.rs", "sync.rs"),
-        ("tiny-std/src/sync/mutex.rs", "mutex.rs"),
-        ("tiny-std/src/sync/rwlock.rs", "rwlock.rs"),
-    ];
-    for (src, dst) in files {
+    // sync.rs and EVERY file of sync/ (a lock may keep part of its code in a sibling module, e.g. a raw futex lock
+    // split out of mutex.rs): `#[path = "gen/sync.rs"] mod sync;` resolves `mod x;` to gen/x.rs
+    let mut files: Vec<(String, String)> = vec![("tiny-std/src/sync.rs".to_string(), "sync.rs".to_string())];
+    let dir = Path::new(&repo).join("tiny-std/src/sync");
+    println!("cargo:rerun-if-changed={}", dir.display());
+    let mut names: Vec<String> = fs::read_dir(&dir)
+        .expect("read sync dir")
+        .filter_map(|e| e.ok())
+        .map(|e| e.file_name().to_string_lossy().into_owned())
+        .filter(|n| n.ends_with(".rs"))
+        .collect();
+    names.sort();
+    for stale in fs::read_dir(&out).unwrap().filter_map(|e| e.ok()) {
+        let n = stale.file_name().to_string_lossy().into_owned();
+        if n != "sync.rs" && !names.contains(&n) {
+            let _ = fs::remove_file(stale.path());
+        }
+    }
+    for n in names {
+        files.push((format!("tiny-std/src/sync/{n}"), n));
+    }
+    for (src, dst) in files.iter() {
         let p = Path::new(&repo).join(src);
         println!("cargo:rerun-if-changed={}", p.display());
         let s = fs::read_to_string(&p).expect("read source");
